@@ -615,3 +615,8 @@ def run(ck):
     ck.attempt(rule_queue_order)
     ck.attempt(rule_resumable)
     ck.attempt(rule_update_scheduler)
+    # "calling run() again continues it": every period of the loop, resumed or not, grows the result matrices to cover the current column
+    # before it is written (loop rule of C01)
+    from .c01 import rule_loop
+    ck.attempt(rule_loop, rid="C09.R10")
+
